@@ -10,7 +10,7 @@ use crate::{
     Complement, ComplementMut, Reverse, ReverseComplement, ReverseComplementMut, ReverseMut,
 };
 
-use crate::Bs;
+use crate::{Bs, Bv};
 use bitvec::field::BitField;
 
 use core::fmt;
@@ -148,9 +148,13 @@ impl<A: Codec> ToOwned for SeqSlice<A> {
     type Owned = Seq<A>;
 
     fn to_owned(&self) -> Self::Owned {
+        // copying a slice that starts mid-word keeps that bit offset; realign so that
+        // the owned sequence starts at bit 0 of its first word (see `Seq::into_raw`)
+        let mut bv: Bv = self.bs.into();
+        bv.force_align();
         Seq {
             _p: PhantomData,
-            bv: self.bs.into(),
+            bv,
         }
     }
 }
@@ -172,6 +176,7 @@ impl<A: Codec> BitAnd for &SeqSlice<A> {
 
     fn bitand(self, rhs: Self) -> Self::Output {
         let mut bv = self.bs.to_bitvec();
+        bv.force_align();
         bv &= &rhs.bs;
         Seq::<A> {
             bv,
@@ -185,6 +190,7 @@ impl<A: Codec> BitOr for &SeqSlice<A> {
 
     fn bitor(self, rhs: Self) -> Self::Output {
         let mut bv = self.bs.to_bitvec();
+        bv.force_align();
         bv |= &rhs.bs;
 
         Seq::<A> {
